@@ -100,7 +100,8 @@ fn show_feat(f: &gherkin::Feature) -> String {
     )
 }
 
-pub fn gen_tag_eval(rng: &mut Rng) -> Case {
+pub fn gen_tag_eval(rng: &mut Rng, idx: usize) -> Case {
+    let _ = idx;
     let depth = rng.below(6);
     let op = gen_tagop(rng, depth, TAGS);
     let tags = gen_tags(rng, TAGS, 5);
@@ -113,7 +114,8 @@ pub fn gen_tag_eval(rng: &mut Rng) -> Case {
     }
 }
 
-pub fn gen_filter(rng: &mut Rng) -> Case {
+pub fn gen_filter(rng: &mut Rng, idx: usize) -> Case {
+    let _ = idx;
     let mut next_id = 0usize;
     let mut fresh = || {
         next_id += 1;
